@@ -33,7 +33,7 @@ def r_resolver(root):
     class World:
         def __init__(w, tools=False, builtins=None):
             w.errors = []
-            w.parser = HS({".kind": "parser", ".debug": False, ".pos_to_linecol": pyeval.PyFn(lambda pos: (("line", pos), ("col", pos))), "._crossrefs": [], ".file_name": "model.file"})
+            w.parser = HS({".kind": "parser", ".debug": False, ".pos_to_linecol": pyeval.PyFn(lambda pos: (("line", pos), ("col", pos))), "._crossrefs": [], ".file_name": "model.file", "._instances": {}})
             w.mm = HS({".kind": "metamodel", ".scope_providers": {}, ".builtins": builtins, ".textx_tools_support": tools, ".debug": False, ".file_name": "g.tx"})
             w.parser[".metamodel"] = w.mm
             w.model = HS({".kind": "model", "._tx_filename": "model.file", "._tx_parser": w.parser, "._tx_metamodel": w.mm})
@@ -52,7 +52,6 @@ def r_resolver(root):
             w.env.update({"__classdefs__": cds, "__functions__": fns, "__module__": t, "Postponed": POST, "DefaultScopeProvider": pyeval.PyFn(lambda *a, **k: w.provider),
                           "get_model": pyeval.PyFn(lambda o: w._model_of(o)), "textx_isinstance": pyeval.PyFn(lambda o, c: isinstance(o, dict) and o.get(".conforms_to") is c),
                           "TextXSemanticError": mkerr("TextXSemanticError"), "TextXError": mkerr("TextXError"),
-                          "RefRulePosition": pyeval.PyFn(lambda **k: HS(dict({".kind": "refpos"}, **{"." + k_: v_ for k_, v_ in k.items()}))),
                           "__classes__": {"Postponed": lambda v: isinstance(v, dict) and v.get(".__class__") is POST, "TextXError": lambda v: isinstance(v, dict) and str(v.get(".cls", "")).startswith("TextX"), "Exception": lambda v: True, "list": lambda v: isinstance(v, list)},
                           "__keep__": ("Postponed", "MULT_ONEORMORE", "MULT_ZEROORMORE", "MULT_ONE", "MULT_OPTIONAL", "UNKNOWN_OBJ_ERROR", "get_model", "textx_isinstance")})
             for k_ in consts: w.env["__keep__"] = tuple(set(w.env["__keep__"]) | {k_})
@@ -66,7 +65,9 @@ def r_resolver(root):
         def obj(w, **fields):
             o = HS({".kind": "obj", ".parent": w.model, ".__class__": HS({".__name__": "Holder", ".kind": "cls"}), "._tx_position": 50, "._tx_position_end": 90}); o.update({"." + k: v for k, v in fields.items()}); return o
         def target(w, name, cls=None, start=100, model=None):
-            tg = HS({".kind": "obj", ".name": name, ".parent": model or w.model, "._tx_position": start, "._tx_position_end": start + 5, ".conforms_to": cls}); w.targets[name] = tg; return tg
+            tg = HS({".kind": "obj", ".name": name, ".parent": model or w.model, "._tx_position": start, "._tx_position_end": start + 5, ".conforms_to": cls, ".__class__": cls if cls is not None else HS({".__name__": "T"})}); w.targets[name] = tg
+            if model is None or model is w.model: w.parser["._instances"].setdefault(id(tg[".__class__"]), {})[name] = tg      # the parser's table of named instances of this model
+            return tg
         def ref(w, name, pos, cls=None): return HS({".kind": "crossref", ".obj_name": name, ".position": pos, ".position_end": pos + len(name), ".cls": cls or HS({".__name__": "Cls"}), ".scope_provider": None, ".match_rule_name": None})
         def attr(w, name, many): return HS({".kind": "metaattr", ".name": name, ".mult": MANY if many else ONE, ".cont": False, ".ref": True})
         def step(w):
@@ -136,7 +137,7 @@ def r_resolver(root):
     for tools in (True, False):
         b_obj = HS({".kind": "builtin", ".conforms_to": cls, ".__complete__": "all"})
         w = World(tools=tools, builtins={"b": b_obj})
-        o = w.obj(one=None, two=None, refs=[]); tg = w.target("t", cls, start=200); tg2 = w.target("u", cls, start=300, model=w.other_model)
+        o = w.obj(one=None, two=None, refs=[]); tg = w.target("t", cls, start=200); own_u = w.target("u", cls, start=400); tg2 = w.target("u", cls, start=300, model=w.other_model)     # a same-named object of this model exists too; the provider answers the imported one
         w.parser["._crossrefs"] = [(o, w.attr("one", False), w.ref("t", 7, cls)), (o, w.attr("two", False), w.ref("b", 17, cls)), (o, w.attr("refs", True), w.ref("u", 27, cls))]
         k, v = w.step()
         recs = [(r.get(".name"), r.get(".ref_pos_start"), r.get(".ref_pos_end"), r.get(".def_file_name"), r.get(".def_pos_start"), r.get(".def_pos_end")) for r in w.pos_list]
